@@ -138,6 +138,24 @@ def generate(tier, seed, ctx):
             R.append("c14.call " + call_str(method, rng.randrange(2 ** 32), [0.0], [1.0], n, 0, [1.0]))
         R.append("c14.call " + call_str(method, rng.randrange(2 ** 32), [0.0, 1.0], [1.0, 3.0], 1 if method != "Vegas" else 2, 0, [1.0]))
     R.append("c14.call " + call_str("Vegas", rng.randrange(2 ** 32), [0.0], [1.0], 1, 0, [1.0]))
+    # --- ONE region vector object reused across calls (Integrate_MC takes it by non-const reference), with integrations
+    #     abandoned LATE (integrand throws after 10..90 % of the budget); an integrand that reads the caller's region vector
+    for k in range(120 if th else 48):
+        d = rng.randint(1, 4)
+        lo, hi = region_of(rng, d, rng.choice([0, 1, 1, 2]))
+        items = []
+        for j in range(rng.randint(2, 4)):
+            method = rng.choice(METHODS) if k % 3 else "Miser"
+            n = rng.choice([200, 1000, 3000])
+            fid = rng.choice([0, 1, 5, 7])
+            par = [rng.choice([2.5, -1.0])] if fid == 0 else []
+            if j < 2 and rng.random() < 0.7:
+                items.append("A %d %s %d %d %d %s" % (max(1, int(n * rng.uniform(0.1, 0.9))), method, rng.randrange(2 ** 32), n, fid, lst(par)))
+            else:
+                items.append("C %s %d %d %d %s" % (method, rng.randrange(2 ** 32), n, fid, lst(par)))
+        m2 = rng.choice(METHODS)
+        items.append("C %s %d %d %d %s" % (m2, rng.randrange(2 ** 32), 1000, rng.choice([0, 7]), lst([2.5])))
+        R.append("c14.regobj %d %s %d %s" % (d, lst(lo + hi), len(items), " ".join(items)))
     # --- the integrand reads the WHOLE argument vector (fid 6): its size must be the dimension for every method
     for k in range(90 if th else 36):
         method = METHODS[k % 3]
@@ -548,6 +566,59 @@ def _rerun(exe, rq):
     return "harness-no-answer"
 
 
+REGION_CLAUSE = "Integrate_MC modified the caller's region vector"
+
+
+def cmp_regobj(a, impl, ctx):
+    d = int(a[0]); nreg = int(a[1]); reg = [fl(t) for t in a[2:2 + nreg]]
+    lo, hi = reg[:d], reg[d:]
+    p = 2 + nreg
+    ni = int(a[p]); p += 1
+    items = []
+    for _ in range(ni):
+        mode = a[p]; p += 1
+        k = None
+        if mode == "A":
+            k = int(a[p]); p += 1
+        method, seed, n, fid = a[p], int(a[p + 1]), int(a[p + 2]), int(a[p + 3]); npar = int(a[p + 4])
+        par = [fl(t) for t in a[p + 5:p + 5 + npar]]; p += 5 + npar
+        items.append((mode, k, method, n, fid, par))
+    ctx["nontrivial"].add(("c14.regobj", d, tuple(sorted({it[2] for it in items}))))
+    if tag(impl) != "ok":
+        return crash_fail("Integrate_MC (sequence on one region vector)", impl)
+    t = toks(impl)
+    out = []
+    refs = []
+    q = 5 * ni
+    while q < len(t):
+        assert t[q] == "ref"
+        refs.append((t[q + 1], t[q + 2])); q += 3
+    ri = 0
+    vol = 1.0
+    for i in range(d):
+        vol *= hi[i] - lo[i]
+    for j, (mode, k, method, n, fid, par) in enumerate(items):
+        v, calls, intact, seen, ins = t[5 * j:5 * j + 5]
+        name = "Integrate_MC(%s)" % method
+        if intact != "1":
+            out.append(fail("prop", REGION_CLAUSE, "%s, call %d of the sequence (%s): the vector handed in is no longer bitwise what was passed" % (name, j + 1, "abandoned at evaluation %d" % k if mode == "A" else "completed")))
+        if seen != "0":
+            out.append(fail("prop", REGION_CLAUSE + " during the integration (seen by the integrand)", "%s, call %d" % (name, j + 1)))
+        if ins != "1":
+            out.append(fail("prop", name + ": integrand evaluated outside the region (sequence on one region vector)", "call %d" % (j + 1)))
+        if mode == "C":
+            rv, rc = refs[ri]; ri += 1
+            if nonfinite_fail(name, fl(v)):
+                out += nonfinite_fail(name, fl(v))
+            elif (v, calls) != (rv, rc):
+                out.append(fail("prop", name + ": result depends on integrations run before it (same call and seed, fresh process vs after a history on the same region vector object)",
+                                "fresh %s (%s evaluations) in the sequence %s (%s evaluations)" % (rv, rc, v, calls)))
+            elif fid in (0, 7) and out == []:
+                cst = par[0] if fid == 0 else sum(reg)
+                out += const_check(ctx, name, method, fl(v), cst * vol, int(calls))
+    return out
+
+
 def compare(rq, impl, model, ctx):
     op = rq.split(" ", 1)[0]
     a = rq.split()[1:]
@@ -586,6 +657,8 @@ def compare(rq, impl, model, ctx):
             rr.append(fail("prop", name + ": result depends on integrations run before it (same call and seed, fresh process vs after a history with abandoned / enclosing integrations)",
                            "fresh %s (%s evaluations) after history %s (%s evaluations)" % (t[0], t[1], t[4], t[5])))
         return rr
+    if op == "c14.regobj":
+        return cmp_regobj(a, impl, ctx)
     if op == "c14.outer":
         # statistic only (outside the statement): does a complete integration run inside the integrand change the OUTER result?
         t = toks(impl) if tag(impl) == "ok" else ["nan", "0", "nan", "0"]
